@@ -62,7 +62,22 @@ fn interesting_i64(r: &mut StdRng) -> i64 {
         _ => r.random::<i64>() >> r.random_range(0..40),
     }
 }
+thread_local! {
+    /// set when interesting_f64 handed out a constant from the ends of the format: the register that receives it must not
+    /// be multiplied further (exact ghosts of products of 2^+-1000 values take TLC minutes), sums and comparisons are fine
+    static WIDE: std::cell::Cell<bool> = const { std::cell::Cell::new(false) };
+}
+fn wide_taken() -> bool {
+    WIDE.with(|w| w.replace(false))
+}
 fn interesting_f64(r: &mut StdRng) -> f64 {
+    let f = interesting_f64_inner(r);
+    if f != 0.0 && !(1e-200..1e200).contains(&f.abs()) {
+        WIDE.with(|w| w.set(true));
+    }
+    f
+}
+fn interesting_f64_inner(r: &mut StdRng) -> f64 {
     // "arbitrary f64 constants ... exponents spanning the whole supported range": the ends of the format too (seed C07_e:
     // subnormal doubles carry their leading one anywhere in the 52-bit field), any finite bit pattern, signed zero
     match r.random_range(0..12) {
@@ -102,6 +117,8 @@ fn dyadic_history(r: &mut StdRng, tr: &mut Tr, len: usize, extreme: Option<i32>)
     // every third history starts with full-width mantissas: (2^32 - 1)(2^32 + 1) = 2^64 - 1 in register 1,
     // small exact integers next to it, so that additions carry out of the 64-bit mantissa
     let directed = r.random_range(0..3) == 0;
+    let mut last_t = 0usize;
+    wide_taken();
     for step in 0..len {
         let (mut a, mut b, mut t) = (r.random_range(0..NR), r.random_range(0..NR), r.random_range(0..NR));
         let mut c = if step < NR { 0 } else { r.random_range(0..116) };
@@ -123,6 +140,10 @@ fn dyadic_history(r: &mut StdRng, tr: &mut Tr, len: usize, extreme: Option<i32>)
                 (t, c) = (step, 0);
             }
         }
+        if wide_taken() {
+            depth[last_t] = maxdepth;
+        }
+        last_t = t;
         let ev = if c < 14 {
             let (v, e) = forced.unwrap_or((interesting_i64(r), match extreme {
                 Some(x) => x + r.random_range(-20..20),
@@ -301,8 +322,14 @@ fn scalar_history(r: &mut StdRng, tr: &mut Tr, len: usize, extreme: Option<i32>)
     tr.group();
     tr.emit(json!({"k": "begin", "machine": "scalar", "regs": NR, "extreme": extreme.unwrap_or(0)}));
     let mut n = 0;
+    let mut last_t = 0usize;
+    wide_taken();
     for step in 0..len {
         let (a, b, t) = (r.random_range(0..NR), r.random_range(0..NR), r.random_range(0..NR));
+        if wide_taken() {
+            depth[last_t] = maxdepth;
+        }
+        last_t = t;
         let c = if step < NR {
             if r.random_bool(0.3) { r.random_range(100..106) } else { r.random_range(0..20) }
         } else {
